@@ -511,6 +511,10 @@ def iso_scenarios(tier):
         ('iso_get_metadata', 'iso', 'get_metadata', ('struct', 'iso', 'Arg', {'a': 4, 'b': 'x'}), [4], {}, False, True, 'rpc'),
         ('iso_files_list_continue_v2', 'iso', 'files_list_continue_v2', ('struct', 'iso', 'Arg', {'a': 5, 'b': 'y'}), [5], {'b': 'y'}, True, True, 'rpc'),
         ('iso_files_list_continue', 'iso', 'files_list_continue', None, [], {}, False, True, 'rpc')]))
+    # (b5) a tag default whose union and tag names are respelled by the Python backends (HTTPMethod -> HttpMethod, readOnly -> read_only)
+    text = ('namespace iso\n\nunion HTTPMethod\n    getIt\n    put_it\n    DELETE\n\nunion plainMode\n    readOnly\n    rw\n\nstruct Arg\n    a Int32\n    m HTTPMethod = getIt\n    p plainMode = readOnly\n    d HTTPMethod = DELETE\n\n'
+            'route r(Arg, Void, Void)\n')
+    out.append(('iso:respelled-tag-default', [('iso.stone', text), CFG], 'respelled'))
     # (b3) route names that differ only in style map to one Python name: the backends must refuse them, whatever else the namespace holds
     for a, b in (('get/metadata', 'get_metadata'), ('getMeta', 'get_meta'), ('a/b', 'a_b')):
         for extra_v2 in (False, True):
@@ -535,6 +539,31 @@ def iso_task(item):
     label, specs, calls = item
     pkg, u, fail = gen_client(specs)
     inputs = {'scenario': label, 'specs': specs, 'shape_class': label.split(':')[1]}
+    if calls == 'respelled':
+        # how the names are respelled is the backends' business; the defaults of the method must be the runtime's own tag instances
+        if pkg is None:
+            return {'outcome': 'iso:' + fail[0].split(':')[0], 'viol': [viol('isolated:respelled-tag-default:%s' % fail[0], 'isolated scenario %s: %s\n%s' % (label, fail[0], (fail[1] or '')[-600:]), inputs)], 'n': 1}
+        try:
+            mod = u['mods']['iso']
+            arg_cls = getattr(mod, 'Arg')
+            blank = arg_cls(a=1)
+            sig = inspect.signature(u['client'].Base.iso_r)
+            bad = []
+            for pname in ('m', 'p', 'd'):
+                want = getattr(blank, pname)        # the runtime's own default instance
+                got = sig.parameters[pname].default if pname in sig.parameters else inspect.Parameter.empty
+                if got is inspect.Parameter.empty or got != want or type(got) is not type(want):
+                    bad.append(('signature-default', 'parameter %s of iso_r has default %r, the argument struct reads %r' % (pname, got, want)))
+            client, rec = make_client(u)
+            client.iso_r(5)
+            if len(rec.calls) != 1 or rec.calls[0][2] != arg_cls(a=5):
+                bad.append(('wrong-arg', 'iso_r(5) sent %r' % (rec.calls,)))
+            v = [viol('%s:isolated:respelled-tag-default' % i, w + ' [isolated scenario %s]' % label, inputs) for i, w in bad]
+            return {'outcome': 'iso:respelled:' + ('differs' if bad else 'ok'), 'viol': v, 'n': 1}
+        except Exception as e:  # noqa
+            return {'outcome': 'iso:respelled:raised', 'viol': [viol('call-raised:%s:isolated:respelled-tag-default' % type(e).__name__, 'scenario %s raised %r' % (label, e), inputs)], 'n': 1}
+        finally:
+            pkg.close()
     if calls == 'must-refuse':
         # two routes whose Python names coincide cannot both get "one method per route version, named from namespace, route and version"
         if pkg is not None:
